@@ -609,6 +609,10 @@ func parseExcludeFile(openFile openFileFunc) (excludeIPs scan.IPContainer, err e
 			return
 		}
 	}
+	// e.g. a line longer than the scanner buffer: do not silently drop the rest of the list
+	if err = scanner.Err(); err != nil {
+		return
+	}
 	excludeIPs = ranger
 	return
 }
@@ -634,6 +638,9 @@ func parsePortsFile(openFile openFileFunc) (result []*scan.PortRange, err error)
 			return nil, err
 		}
 		result = append(result, ports)
+	}
+	if err = scanner.Err(); err != nil {
+		return nil, err
 	}
 	return
 }
